@@ -433,6 +433,20 @@ def check_tree(tree, rec):
                 rec.fail(site, f"{lname}/{cname}: calls differ from the configured (stream, module, test, kwargs, window, region) set",
                          expected=want, got=[{k: v for k, v in c.items() if not k.startswith('_')} for c in got], **info)
                 continue
+            if cname in ("dict", "odict"):
+                # the caller's in-memory object is a spelling like any other: loading the very same object again (a
+                # config kept in a module constant and used for every deployment) must give the same calls
+                try:
+                    again = observed_calls(Config(src, **kw))
+                except Exception as e:
+                    rec.fail(site, f"{lname}/{cname}: loading the same source object a second time raised {type(e).__name__}: {str(e)[:200]}",
+                             expected=want, raised=True, exc=type(e).__name__, second_load=True, **info)
+                    continue
+                if ms(again) != w_ms:
+                    rec.fail(site, f"{lname}/{cname}: loading the same source object a second time gives different calls",
+                             expected=want, got=[{k: v for k, v in c.items() if not k.startswith('_')} for c in again],
+                             second_load=True, **info)
+                    continue
             bad = [c for c in got if not (c["_func_ok"] and c["_args_ok"] and c["_config_ok"])]
             if bad:
                 rec.fail(site, f"{lname}/{cname}: a call does not name the configured function / config()", got=bad[0], **info)
